@@ -99,6 +99,14 @@ def strip_tolist(node):
         elif isinstance(node, ast.Call) and isinstance(node.func, ast.Name) and node.func.id == "reversed" and len(node.args) == 1:
             rev = not rev
             node = node.args[0]
+        elif isinstance(node, ast.Subscript) and isinstance(node.slice, ast.Slice) and node.slice.lower is None and node.slice.upper is None \
+                and isinstance(node.slice.step, ast.UnaryOp) and isinstance(node.slice.step.op, ast.USub) \
+                and isinstance(node.slice.step.operand, ast.Constant) and node.slice.step.operand.value == 1:
+            rev = not rev                       # x[::-1]
+            node = node.value
+        elif isinstance(node, ast.Call) and isinstance(node.func, ast.Attribute) and node.func.attr == "flip" and len(node.args) == 1:
+            rev = not rev                       # np.flip(x)
+            node = node.args[0]
         else:
             return node, rev
 
